@@ -338,9 +338,6 @@ class Boundary(BasicDomain):
         return '{}_{}'.format(sstr(self.domain),sstr(self.name))
 
     def __add__(self, other):
-        if isinstance(other, ComplementBoundary):
-            raise TypeError('> Cannot add complement of boundary')
-
         return Union(self, other)
 
     def todict(self):
